@@ -118,11 +118,14 @@ class Runner:
         body = self.case['bodies'][w['body']] if w['body'] < len(self.case['bodies']) else []
         runner = self
         if cbid not in self.cbs:
-            def cb(*events):
+            def cb(*events, **kwargs):
                 caller = sys._getframe(2).f_code.co_name if sys._getframe(1).f_code.co_name == '_execute_watcher' else '?'
                 via = {'_call_watcher': False, '_batch_call_watchers': True}.get(caller)
+                # 'kwargs' mode (watch_values): the callback only sees name=new
+                evs = [[runner.names.index(e.name), int(e.old), int(e.new), e.type, WHAT[e.what]] for e in events] + \
+                      [[runner.names.index(n), int(v), int(v), 'kw', 0] for n, v in kwargs.items()]
                 node = {'t': 'call', 'w': cbid,
-                        'evs': [[runner.names.index(e.name), int(e.old), int(e.new), e.type, WHAT[e.what]] for e in events],
+                        'evs': evs,
                         'flush': via, 'snap': [runner._val(i) for i in range(len(runner.names))], 'ch': [], 'res': None}
                 runner.stack[-1].append(node)
                 runner.stack.append(node['ch'])
@@ -135,10 +138,15 @@ class Runner:
                 finally:
                     runner.stack.pop()
             self.cbs[cbid] = cb
-        self.wobjs[wid] = self.obj.param.watch(self.cbs[cbid], [self.names[i] for i in w['params']],
-                                               what=SLOTS[w.get('what', 0)],
-                                               onlychanged=w['onlychanged'], queued=w['queued'],
-                                               precedence=w['precedence'])
+        if w.get('kw'):
+            self.wobjs[wid] = self.obj.param.watch_values(self.cbs[cbid], [self.names[i] for i in w['params']],
+                                                          onlychanged=w['onlychanged'], queued=w['queued'],
+                                                          precedence=w['precedence'])
+        else:
+            self.wobjs[wid] = self.obj.param.watch(self.cbs[cbid], [self.names[i] for i in w['params']],
+                                                   what=SLOTS[w.get('what', 0)],
+                                                   onlychanged=w['onlychanged'], queued=w['queued'],
+                                                   precedence=w['precedence'])
 
     # -- statements -----------------------------------------------------------
     def _node(self, kind, p=0, old=0, new=0, regs=()):
@@ -321,6 +329,8 @@ def gen_case(rng, prop, max_params=4, max_watchers=5, faults=False, size=8):
         if rng.random() < 0.15:
             # a watcher of a Parameter attribute; Event parameters only have `precedence`
             w['what'] = 1 if any(p in events for p in ps) else rng.choice([1, 2])
+        elif rng.random() < 0.15:
+            w['kw'] = True      # registered with watch_values
         state['next_wid'] += 1
         return w
 
